@@ -20,7 +20,8 @@ Star == V("star", "*", 0, 0, <<42>>)
 \* wildcard patterns: 42 = *  63 = ?
 Pats == << V("pat", "x*", 0, 0, <<120,42>>), V("pat", "*x", 0, 0, <<42,120>>), V("pat", "x?y", 0, 0, <<120,63,121>>),
            V("pat", "?", 0, 0, <<63>>), V("pat", "*", 0, 0, <<42>>), V("pat", "x*y*", 0, 0, <<120,42,121,42>>),
-           V("pat", "a_b*", 0, 0, <<97,95,98,42>>), V("pat", "x.y*", 0, 0, <<120,46,121,42>>) >>
+           V("pat", "a_b*", 0, 0, <<97,95,98,42>>), V("pat", "x.y*", 0, 0, <<120,46,121,42>>),
+           V("pat", "x??y", 0, 0, <<120,63,63,121>>), V("pat", "?x?", 0, 0, <<63,120,63>>), V("pat", "*x*y*", 0, 0, <<42,120,42,121,42>>) >>
 Pool(ty) == CASE ty = "int" -> Ints [] ty = "float" -> Decs [] ty = "str" -> Strs
 Small(s) == IF Tier = "quick" THEN SubSeq(s, 1, IF Len(s) > 4 THEN 4 ELSE Len(s)) ELSE s
 
@@ -74,7 +75,13 @@ ListCases(ty) ==
 LikeCases == {Case("like", "f:" \o Pats[i].text, [form |-> "like", pat |-> Pats[i]], <<Pats[i]>>, "str",
                    "f:" \o Pats[(i % Len(Pats)) + 1].text) : i \in DOMAIN Pats}
 
-All == CmpCases("int") \cup CmpCases("float") \cup CmpCases("str")
+\* integers beyond 2^53 (and beyond the 32 bit of TLC): no evaluation on rows, but the SQL must carry exactly that
+\* number - the harness adds the exact value (key) of every numeric value and constant
+Bigs == << V("int", "9007199254740993", 0, 0, <<>>), V("int", "1234567890123456789", 0, 0, <<>>), V("int", "-9007199254740995", 0, 0, <<>>) >>
+BigCases == {Case("big", "f" \o OpSym(op) \o Bigs[i].text, [form |-> "big"], <<Bigs[i]>>, "num", "") : op \in {"=", ">", "<="}, i \in DOMAIN Bigs}
+            \cup {Case("big", "f:[" \o Bigs[1].text \o " TO " \o Bigs[2].text \o "]", [form |-> "big"], <<Bigs[1], Bigs[2]>>, "num", ""),
+                  Case("big", "f:(" \o Bigs[1].text \o " OR 5)", [form |-> "big"], <<Bigs[1], Ints[3]>>, "num", "")}
+All == BigCases \cup CmpCases("int") \cup CmpCases("float") \cup CmpCases("str")
        \cup RangeCases("int") \cup RangeCases("float") \cup RangeCases("str")
        \cup ListCases("int") \cup ListCases("str") \cup LikeCases
 Cases == LET s == SetToSeq(All) IN [i \in DOMAIN s |-> [s[i] EXCEPT !.kind = "leaf"] @@ [id |-> i]]
